@@ -61,6 +61,8 @@ func ApplyFlags(cfg *config.Config, o Options) {
 
 type Result struct {
 	Entries []discovery.Entry
+	Raw     []reporter.Report // every report in production order, before Summary.Report de-duplication
+	RawJob  []int             // for each Raw report, the index of the (entry, check) job that produced it
 	Reports []reporter.Report
 	Panic   string // non-empty when something panicked; holds value + stack
 }
@@ -105,6 +107,7 @@ func Check(cfg config.Config, entries []discovery.Entry, o Options) (res Result)
 		ctx = context.WithValue(ctx, checks.SettingsKey(s.Name), settings)
 	}
 	var summary reporter.Summary
+	job := 0
 	for _, entry := range entries {
 		switch {
 		case entry.PathError != nil && entry.State == discovery.Removed:
@@ -113,14 +116,18 @@ func Check(cfg config.Config, entries []discovery.Entry, o Options) (res Result)
 			continue
 		}
 		for _, check := range cfg.GetChecksForEntry(ctx, gen, entry) {
+			job++
 			for _, problem := range check.Check(ctx, entry, entries) {
-				summary.Report(reporter.Report{
+				rep := reporter.Report{
 					Path:          entry.Path,
 					ModifiedLines: entry.ModifiedLines,
 					Rule:          entry.Rule,
 					Problem:       problem,
 					Owner:         entry.Owner,
-				})
+				}
+				res.Raw = append(res.Raw, rep)
+				res.RawJob = append(res.RawJob, job)
+				summary.Report(rep)
 			}
 		}
 	}
